@@ -60,6 +60,63 @@ def mon_nested(steps, meta):
 wk.MONITORS["nested"] = mon_nested
 
 
+def gen_same_name_case(rng):
+    """two configured projects whose roots end in the same component (x/proj and y/proj): each is a project of its own"""
+    s = wc.Script()
+    W = wc.WATCH
+    wc.setup_world(s, wc.base_cfg(deb=0, project_roots=[W + "/x/proj", W + "/y/proj"], project_parents=[]))
+    s.start()
+    s.exec(3, wc.X + "/vim")
+    first, second = rng.sample(["x", "y"], 2)
+    s.put("%s/%s/proj/a.c" % (W, first), "A1")
+    s.write(3, "%s/%s/proj/a.c" % (W, first))
+    s.put("%s/%s/proj/b.c" % (W, second), "B1")
+    s.write(3, "%s/%s/proj/b.c" % (W, second))
+    s.tick(1)
+    s.dump()
+    s.timeout()
+    s.dump()
+    # later only the first project is touched again: its snapshot must still hold a.c
+    s.put("%s/%s/proj/c.c" % (W, first), "C1")
+    s.write(3, "%s/%s/proj/c.c" % (W, first))
+    s.tick(1)
+    s.dump()
+    s.timeout()
+    s.dump()
+    return s.text(), {"twin": (first, ["a.c", "c.c"])}
+
+
+def mon_twin(steps, meta):
+    """the snapshot taken for the project that was written last holds every member of THAT project that was versioned
+    and still exists (here a.c and c.c) - whatever another project with the same last component did in between"""
+    if not meta.get("twin"):
+        return None
+    dumps = [st.dump for st in steps if st.dump is not None]
+    if len(dumps) < 2:
+        return None
+    prev, last = dumps[-2], dumps[-1]
+    which, members = meta["twin"]
+    new = [p for p, e in last.items() if e[0] == "dir" and p not in prev and p.startswith("/k/projects/proj/") and p.count("/") == 4]
+    if len(new) != 1:
+        return "twin projects: %d new snapshot directories for the one project that was quiet (%s)" % (len(new), new)
+    lack = [m for m in members if (new[0] + "/" + m) not in last]
+    if lack:
+        return ("twin projects: the snapshot %s of project %s/proj lacks %s, which was versioned as part of it and still exists (another project whose root "
+                "also ends in 'proj' was snapshotted in between)" % (new[0], which, lack))
+    return None
+
+
+wk.MONITORS["twin"] = mon_twin
+
+
+def known(meta, msg):
+    import vlib
+    for k in vlib.known_findings().get("open", []):
+        if k["property"] == "C11" and k.get("signature") == "same-last-component" and meta.get("twin") and "twin projects" in msg:
+            return k["id"]
+    return None
+
+
 def main(rep):
     rng = random.Random(rep.seed)
     n = 250 if rep.tier == "quick" else 5000
@@ -70,12 +127,15 @@ def main(rep):
     for i in range(max(10, n // 12)):
         t, m = gen_nested_case(rng)
         cases.append(("n%d" % i, t, m))
-    wk.standard_main(rep, cases=cases, monitors=MON + ["nested"],
+    for i in range(4):
+        t, m = gen_same_name_case(rng)
+        cases.append(("t%d" % i, t, m))
+    wk.standard_main(rep, cases=cases, monitors=["twin"] + MON + ["nested"], known=known,
                      rule=("a configured project root and two children of a project parent, files at depth 1-4, a loose file in the parent and a non-project "
                            "file, writes, deletions, passes, restarts, both traversal orders of the tree walk; the monitor checks every new snapshot directory: "
                            "each entry is the same inode as the latest version of that member, every versioned member that still exists is present, deleted "
-                           "ones are absent, earlier snapshots untouched; plus a project parent nested inside a project root: each child in which a file was versioned gets a snapshot of its own"))
+                           "ones are absent, earlier snapshots untouched; plus a project parent nested inside a project root: each child in which a file was versioned gets a snapshot of its own; plus two projects whose roots end in the same component (open finding K6)"))
 
 
 def replay(rep, path):
-    return wk.replay_world(rep, path, MON + ["nested"])
+    return wk.replay_world(rep, path, ["twin"] + MON + ["nested"])
